@@ -180,8 +180,21 @@ def case(ctx, kind, random=False, solver=None, prob=None, niter=1, m=1, max_ls=N
         b = B(xs)
         x = ctx.element(X, 'x')
         e0 = (x - xs).inner(B(x - xs))
+        r = b - B(x)
+        rr, rBr = r.inner(r), r.inner(B(r))
+        nonzero = bool(rr != 0)
         S.conjugate_gradient(B, x, b, 1)
-        ctx.le('energy-error-nonincreasing', (x - xs).inner(B(x - xs)), e0, slack=1e-9)
+        e1 = (x - xs).inner(B(x - xs))
+        # the inequality e1 <= e0 is decided through its textbook decomposition (z3 returns unknown on the raw quartic
+        # rational inequality): e0 - e1 = (r.r)^2 / (r.Br)  [an identity in x, xs]  and  r.Br > 0 for r != 0  [B is SPD]
+        if nonzero:
+            ctx.eq('energy-decrease=(r.r)^2/(r.Br)', (e0 - e1) * rBr, rr * rr)
+            if ctx.sym:
+                ctx.check('r.Br>0', rBr > 0)
+            else:
+                ctx.fact('r.Br>0', rBr > 0)
+        else:
+            ctx.eq('zero-residual/nothing-moves', e1, e0)
         return
     if kind == 'cgn':
         x = ctx.element(X, 'x')
